@@ -283,9 +283,10 @@ func Run(r *rt.Run) error {
 	// rotating) plus a seeded sample of variant triples
 	len3 := 0
 	if r.Thorough() {
-		for _, a := range vs {
-			for _, b := range vs {
-				for _, c := range vs {
+		core := CoreVariants()
+		for _, a := range core {
+			for _, b := range core {
+				for _, c := range core {
 					if k%2 == 0 {
 						si := sIn[k%len(sIn)]
 						x.add(chain(srcS, a, b, c), si.ins, si.name)
